@@ -10,6 +10,7 @@ pub mod c08;
 pub mod c09;
 pub mod c11;
 pub mod c12;
+pub mod c14;
 pub mod c17;
 
 pub fn run(id: &str, ctx: &Ctx) -> i32 {
@@ -26,6 +27,7 @@ pub fn run(id: &str, ctx: &Ctx) -> i32 {
         "C09" => c09::run(ctx),
         "C11" => c11::run(ctx),
         "C12" => c12::run(ctx),
+        "C14" => c14::run(ctx),
         "C17" => c17::run(ctx),
         _ => { eprintln!("unknown property {id}"); 2 }
     }
@@ -44,6 +46,7 @@ pub fn replay(id: &str, path: &str) -> i32 {
         "C09" => c09::replay(&v),
         "C11" => c11::replay(&v),
         "C12" => c12::replay(&v),
+        "C14" => c14::replay(&v),
         "C17" => c17::replay(&v),
         _ => { eprintln!("unknown property {id}"); 2 }
     }
